@@ -44,6 +44,7 @@
 //! # Ok::<(), Box<dyn std::error::Error>>(())
 //! ```
 #![warn(missing_docs)]
+#![allow(unexpected_cfgs)] // cfg(fidget_verif) verification hooks
 
 mod builder;
 mod cell;
